@@ -206,6 +206,9 @@ def run(spec):
         if stream[0] != red[k]:
             rec.viol(f"C07/{w['driver']}/loaded-state-differs", f"the state rebuilt from the restart file of step {k} differs from the state that was saved", wit)
             continue
+        if len(stream) != n - k + 1:
+            rec.viol(f"C07/{w['driver']}/resumed-run-performs-wrong-number-of-steps", f"resumed from step {k} and asked for {n - k} steps, the rebuilt simulation performed {len(stream) - 1}", wit)
+            continue
         rec.count("steps_compared", n - k)
         for j, d in enumerate(stream[1:], start=k + 1):
             # reference digest after step j's body = dig[j] taken at the start of iteration j (before step j+1) -> index j
